@@ -1,2 +1,33 @@
-(** C16 - placeholder *)
-From VG Require Import Model.Serve.
+(** C16 - Streaming RPCs make progress message by message.
+    Statements only; proofs in Proofs/PipelineProofs.v.
+
+    Deadlock freedom over a real connection is a property of goroutines and HTTP/2 flow control
+    and is not expressible in this model; what the model carries is its cause: no complete message
+    is ever held back.  The check observes, for every Write of the handler, how many complete
+    messages it has written and how many the client can already see (flush offsets). *)
+From VG Require Import Model.Bytes Model.Stream Model.Envelope Model.Headers Model.RespMeta Model.Reader Model.Response.
+From VG Require Import Proofs.ResponseProofs Proofs.PipelineProofs.
+Open Scope Z_scope.
+
+(** A completed response message is written and then flushed before the writer does anything
+    else (clients whose protocol does not need the outcome first). *)
+Theorem C16_complete_message_is_flushed : forall cx c w c' w',
+  e_trailer (tw_latest w) = false -> emih cx = false -> c_buf c = None ->
+  tw_flush_message cx c w = FOk c' w' ->
+  exists writes, c_out c' = c_out c ++ writes ++ [DFlush] /\ Forall (fun e => match e with DWrite _ => True | _ => False end) writes.
+Proof. exact tw_flush_message_progress. Qed.
+Print Assumptions C16_complete_message_is_flushed.
+
+(** When a Write has returned successfully the writer holds less than one complete unit
+    (envelope or message): nothing complete waits for later input. *)
+Theorem C16_nothing_complete_is_retained : forall cx f data c w c' w',
+  tw_loop f cx data c w = (c', w', WOk) -> c_end_written c' = false ->
+  match tw_buf w' with Some b => zlen b < tw_expect w' | None => True end.
+Proof. intros cx. exact (tw_loop_retains_less cx). Qed.
+Print Assumptions C16_nothing_complete_is_retained.
+
+(** Only the protocols that must know the outcome first defer delivery. *)
+Theorem C16_only_unary_clients_defer : forall c,
+  end_must_be_in_headers c = true <-> match c with CConnectPost | CConnectGet | CRest => True | _ => False end.
+Proof. destruct c; cbn; split; auto; discriminate. Qed.
+Print Assumptions C16_only_unary_clients_defer.
